@@ -85,6 +85,26 @@ def forms():
                            ["fn", [["a", "int"], ["b", "int"]], "int", [ret(["bin", "+", ["bin", "+", V("a"), V("b")], T(3)])]]], [1, 2, 3]))
     out.append(("neg", ["pre", "neg", T(1)], [1]))
     out.append(("tacc", ["tacc", ["tuple", T(1), T(2)], 0], [1, 2]))
+    # a container literal accessed at a CONSTANT position: every element is still evaluated
+    for k, nk in ((0, "0"), (1, "1"), (2, "2"), (["pre", "neg", I(1)], "m1"), (["pre", "neg", I(3)], "m3")):
+        ke = I(k) if isinstance(k, int) else k
+        out.append((f"at.lit-array.const-{nk}", ["at", ["array", T(1), T(2), T(3)], ke], [1, 2, 3]))
+        out.append((f"at.lit-array-mixed.const-{nk}", ["at", ["array", T(1), I(7), T(3)], ke], [1, 3]))
+    for k in (0, 1, 2):
+        out.append((f"tacc.lit.{k}", ["tacc", ["tuple", T(1), T(2), T(3)], k], [1, 2, 3]))
+        out.append((f"tacc.lit-mixed.{k}", ["tacc", ["tuple", T(1), I(7), T(3)], k], [1, 3]))
+    for f in ("a", "b", "c"):
+        out.append((f"facc.lit.{f}", ["facc", ["struct", ["a", T(1)], ["b", T(2)], ["c", T(3)]], f], [1, 2, 3]))
+        out.append((f"facc.lit-mixed.{f}", ["facc", ["struct", ["a", T(1)], ["b", I(7)], ["c", T(3)]], f], [1, 3]))
+    out.append(("slice.lit-array.const", ["slice", ["array", T(1), T(2), T(3)], I(1), I(2), None], [1, 2, 3]))
+    out.append(("len.lit-array", ["call", ["facc", V("std"), "len"], ["array", T(1), T(2)]], [1, 2]))
+    out.append(("repeat.zero-len", ["repeat", T(1), I(0)], [1]))
+    out.append(("eq.lit-arrays", ["bin", "==", ["array", T(1), T(2)], ["array", T(3)]], [1, 2, 3]))
+    out.append(("array-of-array.at", ["at", ["at", ["array", ["array", T(1), T(2)], ["array", T(3)]], I(1)], I(0)], [1, 2, 3]))
+    out.append(("mul-zero", ["bin", "*", T(1), I(0)], [1]))
+    out.append(("zero-mul", ["bin", "*", I(0), T(1)], [1]))
+    out.append(("sub-self", ["bin", "-", T(1), T(1)], [1, 1]))
+    out.append(("and-false-lit-left-nested", ["bin", "||", ["bin", "&&", TB(1, True), B(False)], TB(2, True)], [1, 2]))
     return out
 
 
